@@ -466,6 +466,24 @@ func canonical(v interface{}) ([]byte, error) {
 	return append(append([]byte{}, id[:]...), body...), nil
 }
 
+// harnessIDOf: the type id under which the harness registered v's type (taken
+// from the harness's own table, not asked of the implementation again).
+func harnessIDOf(v interface{}) (network.MessageTypeID, bool) {
+	if v == nil {
+		return network.MessageTypeID{}, false
+	}
+	t := reflect.TypeOf(v)
+	if t.Kind() == reflect.Ptr {
+		t = t.Elem()
+	}
+	for k, rt := range idToType {
+		if rt == t {
+			return k, true
+		}
+	}
+	return network.MessageTypeID{}, false
+}
+
 // oracle: is the buffer's id registered, and what does protobuf make of the body.
 func oracle(buf []byte) (reg bool, val interface{}, err error) {
 	if len(buf) < 16 {
